@@ -183,6 +183,9 @@ theorem produce_bytes {ext : Ext} {cid : Bytes} {corr acks timeout ver v : Int} 
   simp only at h
   split at h
   · cases h
+  rename_i hcnt
+  split at h
+  · cases h
   · rename_i hd hhd
     split at h
     · cases h
@@ -217,7 +220,7 @@ theorem produce_bytes {ext : Ext} {cid : Bytes} {corr acks timeout ver v : Int} 
                   rw [pack_bytes hhh, hmsb]
                   simp only [packedBody, widthOf, fieldSpec, List.append_nil, seq_enc, sized32_enc, many_enc, Spec.messageSet,
                     enc32, List.append_assoc])
-          ps l hk body hbody
+          ps l hk (Decidable.not_not.mp hcnt) body hbody
         simp only [fmt_encode_produce_request_0] at hh2
         rw [encodeHeader_ok hhd, pack_bytes hh2, hb.1, hcl.1, hb.2]
         simp [packedBody, widthOf, fieldSpec, request_enc, Spec.produceRequest, Spec.topics, seq_enc, array_enc, hdr,
